@@ -72,6 +72,20 @@ func c07Relay(entry string, n []uint64, f []string) string {
 			return "err"
 		}
 		return c07Ok(c07TB(out))
+	case "v6duid": // pkg/dhcp/relay/v6rewrite.go on a server reply
+		return c07Ok(c07TBN(GetServerDUID(data)))
+	case "v6repl":
+		return c07Ok(c07TB(ReplaceServerDUID(data, c07Arg(f, 1))))
+	case "v6life": // v6life <preferred>,<valid> <message>
+		return c07Ok(c07TB(RewriteV6Lifetimes(data, uint32(c07Num(n, 0)), uint32(c07Num(n, 1)))))
+	case "gihops": // gihops - <packet> <4-byte giaddr>: GetGIAddr, SetGIAddr, GetHops, IncrementHops (each on its own copy)
+		g := GetGIAddr(append(make([]byte, 0, len(data)), data...))
+		s := append(make([]byte, 0, len(data)), data...)
+		SetGIAddr(s, net.IP(c07Arg(f, 1)))
+		h := GetHops(data)
+		i := append(make([]byte, 0, len(data)), data...)
+		IncrementHops(i)
+		return c07Ok(c07TBN(g), c07TB(s), c07U(uint64(h)), c07TB(i))
 	case "o82ins": // o82ins <policy 0 replace|1 keep|2 drop> <pkt> <opt82>
 		pol := "replace"
 		switch c07Num(n, 0) {
@@ -84,8 +98,16 @@ func c07Relay(entry string, n []uint64, f []string) string {
 	case "o82strip":
 		return c07Ok(c07TB(StripOption82(data)))
 	case "setopt": // setopt <code> <pkt> <4-byte value>
+		// both exported setters (SetOptionUint32 and SetOptionIP) on their own copies: they must agree for a 4-byte value
 		v := c07Arg(f, 1)
-		return c07Ok(c07TB(SetOptionUint32(data, byte(c07Num(n, 0)), binary.BigEndian.Uint32(v))))
+		d1 := append(make([]byte, 0, len(data)), data...)
+		d2 := append(make([]byte, 0, len(data)), data...)
+		r1 := SetOptionUint32(d1, byte(c07Num(n, 0)), binary.BigEndian.Uint32(v))
+		r2 := SetOptionIP(d2, byte(c07Num(n, 0)), net.IP(v))
+		if string(r1) != string(r2) {
+			return c07Ok(c07TB(r1), "SetOptionIP", c07TB(r2))
+		}
+		return c07Ok(c07TB(r1))
 	case "getopt":
 		v, ok := GetOptionUint32(data, byte(c07Num(n, 0)))
 		ip := GetOptionIP(data, byte(c07Num(n, 0)))
